@@ -393,6 +393,15 @@ def run_property(pid, tier, seed):
     per = collections.OrderedDict()     # (hname, idx) -> aggregate
     jobs = []
     problems = []                       # harness errors -> exit 3
+    # engine self-test: proxy operators against exact python arithmetic on pinned values
+    selftest_info = 'not run'
+    try:
+        from symx import selftest
+        n_cmp, n_q = selftest.run()
+        selftest_info = '%d operator comparisons, %d solver queries, all agree' % (n_cmp, n_q)
+    except Exception as e:      # noqa
+        problems.append('engine self-test failed: %r' % (e,))
+        selftest_info = 'FAILED: %r' % (e,)
     for idx, entry in enumerate(plan):
         hname, params = entry[0], entry[1]
         spec = mod.HARNESSES[hname]
@@ -501,7 +510,7 @@ def run_property(pid, tier, seed):
         merge(total, {k: agg[k] for k in new_result().keys()})
     exhaustive = all(a['exhausted'] for a in per.values()) and not violations_confirmed
     write_evidence(pid, tier, seed, mod, per, total, wall, exhaustive, violations_confirmed, problems,
-                   known_entries)
+                   known_entries, selftest_info)
     # ------------------------------------------------------------------ report
     for e in known_entries:
         hits = sum(a['known'].get(e['id'], 0) for a in per.values())
@@ -530,7 +539,7 @@ def run_property(pid, tier, seed):
     return 0
 
 
-def write_evidence(pid, tier, seed, mod, per, total, wall, exhaustive, viols, problems, known_entries):
+def write_evidence(pid, tier, seed, mod, per, total, wall, exhaustive, viols, problems, known_entries, selftest_info=''):
     harnesses = []
     for (hname, idx), agg in per.items():
         harnesses.append(dict(
@@ -571,6 +580,7 @@ def write_evidence(pid, tier, seed, mod, per, total, wall, exhaustive, viols, pr
             outside_claim=list(getattr(mod, 'OUTSIDE', [])),
             harnesses=harnesses,
             harness_errors=problems,
+            engine_selftest=selftest_info,
             known_findings_matched={e['id']: sum(a['known'].get(e['id'], 0) for a in per.values())
                                     for e in known_entries},
             violation_replays=[p for (_, _, p, _) in viols],
